@@ -582,13 +582,15 @@ def run(ctx):
                        f'the {u} branch of scope_symbols reads {sorted(reads)} but not `{field}`'), ss.lineno,
                       sample={'binder': f'{cname}.{field}', 'branch_reads': sorted(reads)})
     check_category_independence(ctx)
+    check_prune_only_handled(ctx)
 
 
 def symbol_branches(ctx, ss) -> dict[str, set]:
     """{class name: attributes read on the node (a / alias_) in the branch of the if/elif chain that handles it}"""
     loop = None
     for n in walk_no_nested(ss.node):
-        if isinstance(n, ast.For) and isinstance(n.iter, ast.Call) and call_name(n.iter) == 'walk':
+        it = n.iter.value if isinstance(n, ast.For) and isinstance(n.iter, ast.NamedExpr) else getattr(n, 'iter', None)     # `for f in (gen := X.walk(..))`
+        if isinstance(n, ast.For) and isinstance(it, ast.Call) and call_name(it) == 'walk':
             loop = n
     if loop is None:
         raise AnalysisError('scope_symbols: walk loop not found')
@@ -752,3 +754,43 @@ def check_category_independence(ctx):
                 ctx.ok('R16.3', f'{fi.module}|{fi.qualname}|{name}')
     if n < 8:
         raise AnalysisError(f'scope_symbols: only {n} helper containers found')
+
+
+# ---- R16.4 -----------------------------------------------------------------------------------------------------------
+
+def check_prune_only_handled(ctx):
+    """scope_symbols() classifies names while it walks the scope.  Telling the walk not to descend below a node (`<gen>.send(False)`) in
+    the arm of a node class is sound only if everything below that node is dealt with in the arm itself: every node-valued field of the class
+    is read there (Import: the aliases), or the class has none (Global / Nonlocal).  `MatchAs` looks like a bare capture but also is
+    `<pattern> as name`: pruning it hides every name bound or referenced inside the sub-pattern."""
+    from ..struct import parent_map, enclosing_tests
+    ctx.rule('R16.4', 'scope_symbols() prunes the walk below a node only in arms that handle all node-valued fields of that class themselves', 0)
+    F = T.fields(ctx)
+    byname = {c.name: fs for c, fs in F.items()}
+    for ss in ctx.repo.funcs('fst', 'FST.scope_symbols'):
+        par = parent_map(ss.node)
+        env = dict(ctx.ev.env('fst'))
+        for c in walk_no_nested(ss.node):
+            if not (isinstance(c, ast.Call) and call_name(c) == 'send' and c.args and isinstance(c.args[0], ast.Constant) and c.args[0].value is False):
+                continue
+            # the arm: innermost enclosing `if` whose test names node classes
+            classes, arm = set(), None
+            for t, pol in enclosing_tests(ss.node, c, par):
+                if pol:
+                    cs = T.classes_mentioned(ctx, 'fst', t)
+                    if cs:
+                        classes = cs
+                        break
+            cur = c
+            while cur in par and not (isinstance(par[cur], ast.If) and cur in par[cur].body):
+                cur = par[cur]
+            arm = par.get(cur)
+            reads = {y.attr for b in (arm.body if isinstance(arm, ast.If) else []) for y in ast.walk(b) if isinstance(y, ast.Attribute)} | \
+                {y.args[1].value for b in (arm.body if isinstance(arm, ast.If) else []) for y in ast.walk(b)
+                 if isinstance(y, ast.Call) and call_name(y) == 'getattr' and len(y.args) >= 2 and isinstance(y.args[1], ast.Constant)}
+            for cn in sorted(classes):
+                unhandled = [f for f, ty in byname.get(cn, []) if T.is_ast_type(ty.rstrip('?*')) and f not in reads and
+                             ty.rstrip('?*') not in ('expr_context',)]
+                ctx.check('R16.4', not unhandled, ss.module, ss.qualname, f'send(False) in the {cn} arm',
+                          f'the walk is told not to descend below a {cn}, but its node-valued field(s) {unhandled} are not handled in the arm: names '
+                          f'bound or referenced inside them are never classified', c.lineno, sample={'class': cn, 'unhandled': unhandled})
